@@ -352,8 +352,9 @@ CHECK = Check(
           "ValueError; ops whose ideal scales differ by > 1%; residual cases with tau != 1."),
     assumptions=["statistics.geometric_mean/harmonic_mean/fmean and Fractions are the reference for the mean rules",
                  "gradcheck: float64, eps 1e-6, atol 1e-6, rtol 1e-4; self-test proves it rejects a harness-side op with mismatched forward/backward scales"],
-    shards={"quick": 8, "thorough": 14},
+    shards={"quick": 12, "thorough": 14},
     selftest=selftest,
+    time_budget={"quick": 400.0, "thorough": 3000.0},
 )
 
 if __name__ == "__main__":
